@@ -16,6 +16,7 @@ type Env struct {
 	fr   *Frame
 	vars map[string]*Val
 	ctx  string
+	pre  *State // state at loop entry, for (pre e) inside loop invariants
 }
 
 func (e *Env) with(vars map[string]*Val) *Env {
@@ -175,6 +176,14 @@ func (r *Run) eval(e *Env, x *SX) *Val {
 		}
 		n := *e
 		n.st = e.old
+		return r.eval(&n, args[0])
+	case "pre":
+		if e.pre == nil {
+			r.toolErr("%s: (pre ...) is only meaningful inside a loop invariant: %s", e.ctx, x)
+			return r.eval(e, args[0])
+		}
+		n := *e
+		n.st = e.pre
 		return r.eval(&n, args[0])
 	case ".":
 		v := r.eval(e, args[0])
